@@ -65,6 +65,9 @@ impl<'a, 'tcx> W<'a, 'tcx> {
         if let Some(t) = self.tr.expr_ty_adjusted_opt(e) {
             o.put("ty", J::s(ty_s(t)));
         }
+        if let Some(t) = self.tr.expr_ty_opt(e) {
+            o.put("ty0", J::s(ty_s(t)));
+        }
         let mut inner = e;
         // look through &, &mut, parens-like wrappers
         loop {
